@@ -9,4 +9,4 @@ CONSTANTS
 INIT Init
 NEXT Next
 CONSTRAINT Budget
-INVARIANTS TypeOK RoundTrip AcceptNonZero Pad64 DebugIsSampled MissingNotSampled SinglePrecedence NothingFromNothing ZeroNeverInstalled
+INVARIANTS TypeOK RoundTrip AcceptNonZero Pad64 DebugIsSampled MissingNotSampled SinglePrecedence NothingFromNothing ZeroNeverInstalled Agree
